@@ -118,9 +118,10 @@ def call_generator(gen, r, c, kwargs):
     from maze_dataset.generation.generators import LatticeMazeGenerators
 
     kw = dict(kwargs)
+    shape_dtype = kw.pop("_shape_dtype", None)  # harness-only key: the integer dtype in which the caller holds the grid shape (e.g. the library's own int8 Coord dtype)
     if "start_coord" in kw and kw["start_coord"] is not None:
         kw["start_coord"] = np.array(kw["start_coord"])
-    return getattr(LatticeMazeGenerators, gen)(np.array([r, c]), **kw)
+    return getattr(LatticeMazeGenerators, gen)(np.array([r, c], dtype=shape_dtype) if shape_dtype else np.array([r, c]), **kw)
 
 
 def n_accessible(r, c, kwargs):
